@@ -44,6 +44,22 @@ PROBES = ["tree_depth>=3", "resolved_cohorts", "resolved_blockwise", "resolved_m
 
 
 def gen(tape: Tape, tier: str) -> dict:
+    if tape.chance("gen.kind.nd", 0.15):
+        # labels of 1-3 dimensions chunked along several axes, partial-axis reductions (C19's cell generator)
+        from . import c19
+        from ..cases import dec_value, enc_value
+        from ..redcase import swarm_knobs
+
+        case = c19.gen(tape, tier)
+        case["kind"] = "reduce"
+        kw = dec_value(case["kwargs"])
+        m = tape.choice("gen.nd.method", ["map-reduce", "cohorts", None, None])
+        if m is not None:
+            kw["method"] = m
+        case["kwargs"] = enc_value(kw)
+        case["knobs"] = swarm_knobs(tape, len(case["chunks"][-1]))
+        case["meta"]["ngroups"] = 0
+        return case
     return gen_reduce_case(
         tape,
         funcs=ALL_TREE_FUNCS + ["first", "last", "median", "nanmedian", "quantile", "nanquantile"],
